@@ -33,7 +33,7 @@ class C12(Check):
                   "0 -> value, 3 -> None, 2 -> ValueError, with the emptiness re-check on status 2) over any certified LP oracle, including a second oracle class in which "
                   "an unbounded feasible problem may be reported `infeasible` (what HiGHS' presolve does); correspondence of value / None / ValueError with the exact optimum.")
     lean_modules = ["Pacti.Props.C12"]
-    theorems = ["Pacti.C12.optimize_some", "Pacti.C12.optimize_none", "Pacti.C12.optimize_err", "Pacti.C12.bounds_enclose", "Pacti.C12.certified_is_ambiguous"]
+    theorems = ["Pacti.C12.optimize_some", "Pacti.C12.optimize_none", "Pacti.C12.optimize_err", "Pacti.C12.bounds_enclose", "Pacti.C12.contract_optimize_some", "Pacti.C12.contract_optimize_none", "Pacti.C12.contract_optimize_err", "Pacti.C12.contract_bounds_enclose", "Pacti.C12.certified_is_ambiguous"]
     quick_n = 1200
     thorough_n = 40000
     judge_sample = 300
@@ -100,10 +100,10 @@ class C12(Check):
         c = case["c"]
         names = K.all_names(c) + (list(case["obj"]) if case["kind"] == "opt" else [case["var"]])
         vm = C.VarMap(names)
-        terms = G.w_tl(_union(c["a"], c["g"]), vm)
+        # contract-level ops: the model itself forms `a | g` (generated list_union)
         if case["kind"] == "bounds":
-            return {"op": "bounds", "terms": terms, "var": vm.i(case["var"])}
-        return {"op": "optimize", "terms": terms, "obj": [[vm.i(v), C.qs(x)] for v, x in case["obj"].items()], "max": case["max"]}
+            return {"op": "bounds_c", "c1": K.w_contract(c, vm), "var": vm.i(case["var"])}
+        return {"op": "optimize_c", "c1": K.w_contract(c, vm), "obj": [[vm.i(v), C.qs(x)] for v, x in case["obj"].items()], "max": case["max"]}
 
     @staticmethod
     def _same(a, b):
